@@ -203,7 +203,7 @@ def IsFloatKind : DType F → Prop
   | _ => False
 
 /-- a float-valued type that accepts two finite numbers accepts every number between them -/
-theorem floatKind_between {b : DType F} (hk : IsFloatKind b) (hb : b.WF) (hres : ResLeOne b)
+theorem floatKind_between {b : DType F} (hb : b.WF) (hk : IsFloatKind b) (hres : ResLeOne b)
     {vlo vhi v : PVal F} {lo hi x : F}
     (hvlo : toFloat? vlo = some lo) (hvhi : toFloat? vhi = some hi) (hv : toFloat? v = some x)
     (flo : isFinite lo = true) (fhi : isFinite hi = true)
@@ -240,19 +240,19 @@ theorem toFloat_of_validate {b : DType F} (hk : IsFloatKind b) {v r : PVal F} (h
     exact toFloat_of_scaledValidate e
 
 /-- float limits `lo ≤ hi` (canonical, finite) accepted ⇒ every float between them accepted -/
-theorem floats_between {b : DType F} (hk : IsFloatKind b) (hb : b.WF) (hres : ResLeOne b) {lo hi x : F}
+theorem floats_between {b : DType F} (hb : b.WF) (hk : IsFloatKind b) (hres : ResLeOne b) {lo hi x : F}
     (flo : isFinite lo = true) (fhi : isFinite hi = true) (clo : addZero lo = lo) (chi : addZero hi = hi)
     (h : limitsValid b (.float lo) (.float hi) = .ok ())
     (hx1 : le lo x = true) (hx2 : le x hi = true) : ∃ r, validate b (.float x) none = .ok r := by
   obtain ⟨h1, h2⟩ := limitsValid_parts h
-  refine floatKind_between hk hb hres (lo := lo) (hi := hi) (x := addZero x) ?_ ?_ rfl flo fhi h1 h2 ?_ ?_
+  refine floatKind_between hb hk hres (lo := lo) (hi := hi) (x := addZero x) ?_ ?_ rfl flo fhi h1 h2 ?_ ?_
   · simp [toFloat?, clo]
   · simp [toFloat?, chi]
   · rw [CompatLaws.addZero_le_right]; exact hx1
   · rw [CompatLaws.addZero_le_left]; exact hx2
 
 /-- integer limits accepted by a float-valued type ⇒ every integer between them accepted -/
-theorem ints_between {b : DType F} (hk : IsFloatKind b) (hb : b.WF) (hres : ResLeOne b) {lo hi i : Int}
+theorem ints_between {b : DType F} (hb : b.WF) (hk : IsFloatKind b) (hres : ResLeOne b) {lo hi i : Int}
     (h : limitsValid b (.int lo) (.int hi) = .ok ()) (h1 : lo ≤ i) (h2 : i ≤ hi) :
     ∃ r, validate b (.int i) none = .ok r := by
   obtain ⟨v1, v2⟩ := limitsValid_parts h
@@ -263,7 +263,7 @@ theorem ints_between {b : DType F} (hk : IsFloatKind b) (hb : b.WF) (hres : ResL
   have hlo' : (ofInt lo : Option F) = some xlo := by simpa [toFloat?] using hlo
   have hhi' : (ofInt hi : Option F) = some xhi := by simpa [toFloat?] using hhi
   obtain ⟨x, hx⟩ := CompatLaws.ofInt_between lo i hi xlo xhi hlo' hhi' h1 h2
-  exact floatKind_between hk hb hres hlo hhi (v := .int i) (x := x) (by simpa [toFloat?] using hx)
+  exact floatKind_between hb hk hres hlo hhi (v := .int i) (x := x) (by simpa [toFloat?] using hx)
     (LawfulFloatOps.ofInt_finite _ _ hlo') (LawfulFloatOps.ofInt_finite _ _ hhi') ⟨r1, e1⟩ ⟨r2, e2⟩
     (LawfulFloatOps.ofInt_mono lo i xlo x h1 hlo' hx) (LawfulFloatOps.ofInt_mono i hi x xhi h2 hx hhi')
 
@@ -393,5 +393,370 @@ theorem foldFields_all_ok {f : String → PVal F → Option (Res F)} : ∀ (item
         simp only at hr
         rw [hr]
         exact ih _ htl
+
+/-! ### small facts about the value sets and the struct plumbing -/
+
+theorem inSetG_ne_none {G : F → F → Prop} {t : DType F} {v : PVal F} (h : InSetG G t v) : v ≠ .none := by
+  intro e; subst e
+  cases t <;> simp [InSetG] at h
+
+theorem memberInG_ne_none {G : F → F → Prop} : ∀ (ms : List (String × DType F)) (k : String) (v : PVal F),
+    MemberInG G ms k v → v ≠ .none
+  | [], _, _, h => by simp [MemberInG] at h
+  | (k', t) :: rest, k, v, h => by
+    simp only [MemberInG] at h
+    by_cases e : k' = k
+    · simp only [e, if_true] at h; exact inSetG_ne_none h
+    · simp only [e, if_false] at h; exact memberInG_ne_none rest k v h
+
+theorem zipInG_length {G : F → F → Prop} : ∀ (ts : List (DType F)) (vs : List (PVal F)),
+    ZipInG G ts vs → vs.length = ts.length
+  | [], [], _ => rfl
+  | t :: ts, v :: vs, h => by
+    simp only [ZipInG] at h
+    simp [zipInG_length ts vs h.2]
+  | [], _ :: _, h => by simp [ZipInG] at h
+  | _ :: _, [], h => by simp [ZipInG] at h
+
+theorem memberInG_name {G : F → F → Prop} : ∀ (ms : List (String × DType F)) (k : String) (v : PVal F),
+    MemberInG G ms k v → k ∈ ms.map (·.1)
+  | [], _, _, h => by simp [MemberInG] at h
+  | (k', t) :: rest, k, v, h => by
+    simp only [MemberInG] at h
+    by_cases e : k' = k
+    · simp [e]
+    · simp only [e, if_false] at h
+      simp only [List.map_cons, List.mem_cons]
+      exact Or.inr (memberInG_name rest k v h)
+
+theorem member_name : ∀ (ms : List (String × DType F)) (k : String) (t : DType F),
+    DType.member? ms k = some t → k ∈ ms.map (·.1)
+  | [], _, _, h => by simp [DType.member?, dictGet] at h
+  | (k', t') :: rest, k, t, h => by
+    simp only [DType.member?, dictGet] at h
+    by_cases e : k' = k
+    · simp [e]
+    · simp only [e, if_false] at h
+      simp only [List.map_cons, List.mem_cons]
+      exact Or.inr (member_name rest k t h)
+
+theorem member_wf : ∀ (ms : List (String × DType F)) (k : String) (t : DType F),
+    DType.WFFields ms → DType.member? ms k = some t → t.WF
+  | [], _, _, _, h => by simp [DType.member?, dictGet] at h
+  | (k', t') :: rest, k, t, hw, h => by
+    simp only [DType.WFFields] at hw
+    simp only [DType.member?, dictGet] at h
+    by_cases e : k' = k
+    · simp only [e, if_true] at h; injection h with h; subst h; exact hw.1
+    · simp only [e, if_false] at h
+      exact member_wf rest k t hw.2 h
+
+theorem member_resLeOne : ∀ (ms : List (String × DType F)) (k : String) (t : DType F),
+    ResLeOneFields ms → DType.member? ms k = some t → ResLeOne t
+  | [], _, _, _, h => by simp [DType.member?, dictGet] at h
+  | (k', t') :: rest, k, t, hw, h => by
+    simp only [ResLeOneFields] at hw
+    simp only [DType.member?, dictGet] at h
+    by_cases e : k' = k
+    · simp only [e, if_true] at h; injection h with h; subst h; exact hw.1
+    · simp only [e, if_false] at h
+      exact member_resLeOne rest k t hw.2 h
+
+theorem convMember_of_member (m : Mode) : ∀ (ms : List (String × DType F)) (k : String) (t : DType F) (v : PVal F),
+    DType.member? ms k = some t → convMember m ms k v = some (conv m t v none)
+  | [], _, _, _, h => by simp [DType.member?, dictGet] at h
+  | (k', t') :: rest, k, t, v, h => by
+    simp only [DType.member?, dictGet] at h
+    simp only [convMember]
+    by_cases e : k' = k
+    · simp only [e, if_true] at h ⊢; injection h with h; subst h; rfl
+    · simp only [e, if_false] at h ⊢
+      exact convMember_of_member m rest k t v h
+
+theorem givenKeys_mem : ∀ (fields : List (String × PVal F)) (k : String) (x : PVal F),
+    (k, x) ∈ fields → x ≠ .none → k ∈ givenKeys fields
+  | [], _, _, h, _ => by cases h
+  | (k', x') :: rest, k, x, h, hx => by
+    rcases List.mem_cons.1 h with e | e
+    · injection e with e1 e2; subst e1; subst e2
+      cases x <;> simp [givenKeys] at hx ⊢
+    · have ih := givenKeys_mem rest k x e hx
+      cases x' <;> simp [givenKeys, ih]
+
+/-- an `EnumMember` is only converted by enums and booleans, which do not distinguish `validate` -/
+theorem call_enum_validate {b : DType F} {n : String} {k : Int} {r : PVal F}
+    (h : call b (.enum n k) = .ok r) : validate b (.enum n k) none = .ok r := by
+  cases b <;> simp only [call, validate, conv] at h ⊢
+  case double => simp [doubleCall, toFloat?] at h; cases h
+  case int => simp [intCall] at h; cases h
+  case scaled => simp [scaledCall, toFloat?] at h; cases h
+  case bool => exact h
+  case enum => exact h
+  case string => exact h
+  case blob => exact h
+  case array => simp [seqItems?] at h
+  case tuple => simp [seqItems?] at h
+  case struct => cases h
+
+theorem compatFields_members : ∀ (ms ms' : List (String × DType F)), compatFields ms ms' = .ok () →
+    ∀ k ∈ ms.map (·.1), k ∈ ms'.map (·.1)
+  | [], _, _, k, hk => by cases hk
+  | (k0, t) :: rest, ms', h, k, hk => by
+    simp only [compatFields] at h
+    split at h
+    · cases h
+    · rename_i t' ht'
+      split at h
+      · cases h
+      · simp only [List.map_cons, List.mem_cons] at hk
+        rcases hk with e | e
+        · subst e; exact member_name ms' _ t' ht'
+        · exact compatFields_members rest ms' h k e
+
+/-! ### soundness: mutual induction over the first datatype -/
+
+mutual
+theorem compat_sound : ∀ (a b : DType F), a.WF → b.WF → GridAligned a → ResLeOne b → OptionalRespected a b →
+    compatible a b = .ok () → ∀ v, InSet a v → ∃ r, validate b v none = .ok r
+  | .double amin amax _ _, b, ha, hb, _, hres, _, h, v, hv => by
+    simp only [DType.WF] at ha
+    obtain ⟨f1, f2, _, _, _, c1, c2, _⟩ := ha
+    cases v <;> simp only [InSet, InSetG] at hv <;> try exact hv.elim
+    case float x =>
+      cases b <;> simp only [compatible] at h <;> try cases h
+      case double => exact floats_between hb trivial hres f1 f2 c1 c2 h hv.2.1 hv.2.2
+      case scaled => exact floats_between hb trivial hres f1 f2 c1 c2 h hv.2.1 hv.2.2
+  | .scaled s amin amax _ _, b, ha, hb, hal, hres, _, h, v, hv => by
+    simp only [DType.WF] at ha
+    obtain ⟨_, _, f1, f2, _, c1, c2, _⟩ := ha
+    simp only [GridAligned] at hal
+    cases v <;> simp only [InSet, InSetG] at hv <;> try exact hv.elim
+    case float x =>
+      have hbs := hv.2
+      simp only [BetweenSnapped, hal.1, hal.2] at hbs
+      cases b <;> simp only [compatible] at h <;> try cases h
+      case double => exact floats_between hb trivial hres f1 f2 c1 c2 h hbs.1 hbs.2
+      case scaled => exact floats_between hb trivial hres f1 f2 c1 c2 h hbs.1 hbs.2
+  | .int amin amax, b, ha, hb, _, hres, _, h, v, hv => by
+    cases v <;> simp only [InSet, InSetG] at hv <;> try exact hv.elim
+    case int i =>
+      cases b <;> simp only [compatible] at h <;> try cases h
+      case int => exact ints_between_int h hv.1 hv.2
+      case double => exact ints_between hb trivial hres h hv.1 hv.2
+      case scaled => exact ints_between hb trivial hres h hv.1 hv.2
+      case enum ms =>
+        have := allFrom_ok _ _ h i hv.1 (by omega)
+        obtain ⟨r, hr⟩ := check_ok this
+        exact ⟨r, by simpa only [validate, call, conv] using hr⟩
+      case bool =>
+        have := allFrom_ok _ _ h i hv.1 (by omega)
+        obtain ⟨r, hr⟩ := check_ok this
+        exact ⟨r, by simpa only [validate, call, conv] using hr⟩
+  | .bool, b, _, _, _, _, _, h, v, hv => by
+    simp only [compatible] at h
+    obtain ⟨h1, h2⟩ := limitsValid_parts h
+    cases v <;> simp only [InSet, InSetG] at hv <;> try exact hv.elim
+    case bool x => cases x <;> assumption
+  | .enum ms, b, _, _, _, _, _, h, v, hv => by
+    simp only [compatible] at h
+    cases v <;> simp only [InSet, InSetG] at hv <;> try exact hv.elim
+    case enum n k =>
+      have := allMembers_ok ms h (n, k) hv
+      obtain ⟨r, hr⟩ := check_ok this
+      exact ⟨r, call_enum_validate hr⟩
+  | .string a1 a2 u, b, _, _, _, _, _, h, v, hv => by
+    cases v <;> simp only [InSet, InSetG] at hv <;> try exact hv.elim
+    case str s =>
+      cases b with
+      | string b1 b2 w =>
+        simp only [compatible] at h
+        split at h
+        · cases h
+        · rename_i hc
+          simp only [Bool.or_eq_true, decide_eq_true_eq, Bool.and_eq_true, Bool.not_eq_true', not_or, not_and,
+            Nat.not_lt, Bool.not_eq_false] at hc
+          obtain ⟨⟨c1, c2⟩, c3⟩ := hc
+          obtain ⟨l1, l2, asc, nul⟩ := hv
+          refine ⟨.str s, ?_⟩
+          have hasc : (!w && !isAscii s) = false := by
+            cases w
+            · have hu : u = false := by
+                cases u
+                · rfl
+                · exact absurd (c3 rfl) (by simp)
+              have : isAscii s = true := by
+                unfold isAscii
+                simp only [List.all_eq_true, decide_eq_true_eq]
+                exact asc hu
+              simp [this]
+            · rfl
+          have hnul : hasNul s = false := by
+            unfold hasNul
+            simp only [List.any_eq_false, beq_iff_eq]
+            exact nul
+          have g1 : ¬ s.length < b1 := by omega
+          have g2 : ¬ s.length > b2 := by omega
+          simp only [validate, conv, stringCall, hasc, hnul, g1, g2, if_false, Bool.false_eq_true]
+          rfl
+      | _ => simp only [compatible] at h <;> cases h
+  | .blob a1 a2, b, _, _, _, _, _, h, v, hv => by
+    cases v <;> simp only [InSet, InSetG] at hv <;> try exact hv.elim
+    case bytes s =>
+      cases b with
+      | blob b1 b2 =>
+        simp only [compatible] at h
+        split at h
+        · cases h
+        · rename_i hc
+          simp only [Bool.or_eq_true, decide_eq_true_eq, not_or, Nat.not_lt] at hc
+          refine ⟨.bytes s, ?_⟩
+          have g1 : ¬ s.length < b1 := by omega
+          have g2 : ¬ s.length > b2 := by omega
+          simp only [validate, conv, blobCall, g1, g2, if_false]
+          rfl
+      | _ => simp only [compatible] at h <;> cases h
+  | .array e a1 a2, b, ha, hb, hal, hres, hopt, h, v, hv => by
+    cases v <;> simp only [InSet, InSetG] at hv <;> try exact hv.elim
+    case tuple vs =>
+      cases b with
+      | array e' b1 b2 =>
+        simp only [compatible] at h
+        split at h
+        · cases h
+        · rename_i hc
+          simp only [Bool.or_eq_true, decide_eq_true_eq, not_or, Nat.not_lt] at hc
+          simp only [DType.WF] at ha hb
+          simp only [GridAligned] at hal
+          simp only [ResLeOne] at hres
+          simp only [OptionalRespected] at hopt
+          have hall : ∀ x ∈ vs, ∃ r, conv .validate e' x none = .ok r :=
+            fun x hx => compat_sound e e' ha.1 hb.1 hal hres hopt h x (hv.1 x hx)
+          obtain ⟨rs, hrs⟩ := mapPrev_all_ok vs hall
+          refine ⟨.tuple rs, ?_⟩
+          have g1 : ¬ vs.length < b1 := by omega
+          have g2 : ¬ vs.length > b2 := by omega
+          simp only [validate, conv, seqItems?, g1, g2, if_false, prevItems, hrs, mapErr]
+          rfl
+      | _ => simp only [compatible] at h <;> cases h
+  | .tuple es, b, ha, hb, hal, hres, hopt, h, v, hv => by
+    cases v <;> simp only [InSet, InSetG] at hv <;> try exact hv.elim
+    case tuple vs =>
+      cases b with
+      | tuple es' =>
+        simp only [compatible] at h
+        split at h
+        · cases h
+        · rename_i hlen
+          simp only [ne_eq, Decidable.not_not] at hlen
+          simp only [DType.WF] at ha hb
+          simp only [GridAligned] at hal
+          simp only [ResLeOne] at hres
+          simp only [OptionalRespected] at hopt
+          obtain ⟨⟨rs, hrs⟩, hl⟩ := compatList_sound es es' ha.2 hb.2 hal hres hopt h vs hv
+          refine ⟨.tuple rs, ?_⟩
+          have g : ¬ vs.length ≠ es'.length := by have := zipInG_length es vs hv; simp; omega
+          simp only [validate, conv, seqItems?, g, if_false, hrs, mapErr]
+          rfl
+      | _ => simp only [compatible] at h <;> cases h
+  | .struct ms opt c, b, ha, hb, hal, hres, hopt, h, v, hv => by
+    cases v <;> simp only [InSet, InSetG] at hv <;> try exact hv.elim
+    case dict fields =>
+      cases b with
+      | struct ms' opt' c' =>
+        simp only [compatible] at h
+        split at h
+        · cases h
+        · rename_i hcf
+          split at h
+          · rename_i hmc
+            simp only [DType.WF] at ha hb
+            simp only [GridAligned] at hal
+            simp only [ResLeOne] at hres
+            simp only [OptionalRespected] at hopt
+            obtain ⟨hmem, hnd, hmand⟩ := hv
+            have hfs := compatFields_sound ms ms' ha.2.2.2 hb.2.2.2 hal hres hopt.2 (by rw [hcf])
+            have hall : ∀ kv ∈ fields, kv.2 = .none ∨ ∃ r, convMember .validate ms' kv.1 kv.2 = some (.ok r) :=
+              fun kv hkv => Or.inr (hfs kv.1 kv.2 (hmem kv hkv))
+            obtain ⟨res, hres'⟩ := foldFields_all_ok fields [] hall
+            have hsc : structCheck (ms'.map (·.1)) opt' true fields = true := by
+              unfold structCheck
+              simp only [Bool.and_eq_true, List.all_eq_true, List.contains_eq_mem, decide_eq_true_eq,
+                Bool.or_eq_true, Bool.true_and]
+              refine ⟨?_, ?_⟩
+              · intro kv hkv
+                exact compatFields_members ms ms' (by rw [hcf]) kv.1 (memberInG_name ms kv.1 kv.2 (hmem kv hkv))
+              · intro k hk
+                by_cases ho : k ∈ opt'
+                · exact Or.inr ho
+                · left
+                  unfold mandatoryCovered at hmc
+                  simp only [List.all_eq_true, Bool.or_eq_true, List.contains_eq_mem, decide_eq_true_eq] at hmc
+                  have hk1 : k ∈ ms.map (·.1) := by
+                    rcases hmc k hk with x | x
+                    · exact absurd x ho
+                    · exact x
+                  have hk2 : k ∉ opt := fun hko => ho (hopt.1 k hko hk)
+                  have hk3 := hmand k hk1 hk2
+                  obtain ⟨kv, hkv, hkeq⟩ := List.mem_map.1 hk3
+                  have := givenKeys_mem fields kv.1 kv.2 hkv (memberInG_ne_none ms kv.1 kv.2 (hmem kv hkv))
+                  rw [hkeq] at this
+                  exact this
+            refine ⟨.dict res, ?_⟩
+            simp only [validate, conv, Bool.or_true, beq_self_eq_true, hsc, if_true, prevFields, hres', mapErr]
+            rfl
+          · cases h
+      | _ => simp only [compatible] at h <;> cases h
+theorem compatList_sound : ∀ (es es' : List (DType F)), DType.WFList es → DType.WFList es' →
+    GridAlignedList es → ResLeOneList es' → OptionalRespectedList es es' → compatList es es' = .ok () →
+    ∀ vs, ZipInG OnGrid es vs → (∃ rs, convTuple .validate es' vs none = .ok rs) ∧ True
+  | [], es', _, _, _, _, _, _, vs, hv => by
+    cases vs
+    · cases es' <;> exact ⟨⟨[], by simp [convTuple]⟩, trivial⟩
+    · simp [ZipInG] at hv
+  | t :: ts, [], _, _, _, _, _, _, vs, hv => ⟨⟨[], by simp [convTuple]⟩, trivial⟩
+  | t :: ts, t' :: ts', ha, hb, hal, hres, hopt, h, vs, hv => by
+    cases vs with
+    | nil => simp [ZipInG] at hv
+    | cons x xs =>
+      simp only [ZipInG] at hv
+      simp only [DType.WFList] at ha hb
+      simp only [GridAlignedList] at hal
+      simp only [ResLeOneList] at hres
+      simp only [OptionalRespectedList] at hopt
+      simp only [compatList] at h
+      split at h
+      · cases h
+      · rename_i hc
+        obtain ⟨r, hr⟩ := compat_sound t t' ha.1 hb.1 hal.1 hres.1 hopt.1 (by rw [hc]) x hv.1
+        obtain ⟨⟨rs, hrs⟩, _⟩ := compatList_sound ts ts' ha.2 hb.2 hal.2 hres.2 hopt.2 h xs hv.2
+        refine ⟨⟨r :: rs, ?_⟩, trivial⟩
+        simp only [validate] at hr
+        simp only [convTuple, hr, hrs]
+theorem compatFields_sound : ∀ (ms ms' : List (String × DType F)), DType.WFFields ms → DType.WFFields ms' →
+    GridAlignedFields ms → ResLeOneFields ms' → OptionalRespectedFields ms ms' → compatFields ms ms' = .ok () →
+    ∀ k x, MemberInG OnGrid ms k x → ∃ r, convMember .validate ms' k x = some (.ok r)
+  | [], _, _, _, _, _, _, _, k, x, hm => by simp [MemberInG] at hm
+  | (k0, t) :: rest, ms', ha, hb, hal, hres, hopt, h, k, x, hm => by
+    simp only [DType.WFFields] at ha
+    simp only [GridAlignedFields] at hal
+    simp only [OptionalRespectedFields] at hopt
+    simp only [compatFields] at h
+    split at h
+    · cases h
+    · rename_i t' ht'
+      split at h
+      · cases h
+      · rename_i hc
+        simp only [MemberInG] at hm
+        by_cases e : k0 = k
+        · subst e
+          simp only [if_true] at hm
+          have ho : OptionalRespected t t' := by have := hopt.1; rw [ht'] at this; exact this
+          obtain ⟨r, hr⟩ := compat_sound t t' ha.1 (member_wf ms' _ t' hb ht') hal.1
+            (member_resLeOne ms' _ t' hres ht') ho (by rw [hc]) x hm
+          exact ⟨r, by rw [convMember_of_member .validate ms' _ t' x ht']; simp only [validate] at hr; rw [hr]⟩
+        · simp only [e, if_false] at hm
+          exact compatFields_sound rest ms' ha.2 hb hal.2 hres hopt.2 h k x hm
+end
 
 end Frappy.Lemmas.C03
